@@ -817,4 +817,474 @@ theorem heat_outside_ramps
 
 end
 
+
+/-- P-1 as an equation: without a shutdown heat lower profile (or without a heat node) the generated problem does not
+    depend on the start heat profile at all -/
+theorem assemble_ignores_start_heat (r : CHPRP) (hq : r.core.heat = false ∨ r.prof.qlh = none) (a b : Option (List Rat)) :
+    assembleCHPP { r with prof := { r.prof with slh := a, suh := b } } = assembleCHPP r := by
+  have h1 := heatProfRows_nil { r with prof := { r.prof with slh := a, suh := b } } hq
+  have h2 := heatProfRows_nil r hq
+  unfold assembleCHPP
+  congr 1
+  unfold CHPRP.rows CHPRP.capRows
+  rw [h1, h2]
+  rfl
+
+/-! ### non-vacuity: a CHP with heat node, start and shutdown profiles for power and heat -/
+
+/-- `CHPAsset(min 3, max 10, conv 1, start ramp [1]…[2], shutdown ramp [1]…[2], start heat [1/2]…[1], shutdown heat
+    [1/4]…[1/2])`, three steps, was off -/
+def witnessHeat : CHPRP :=
+  { core :=
+      { name := "c", nodes := ["el", "heat"], T := 3, idx := [0, 1, 2],
+        base := { name := "c", nodes := ["el", "heat"], c := [0, 0, 0], l := [3, 3, 3], u := [10, 10, 10], rows := [],
+                  mapping := (List.range 3).map fun j => ⟨j, "c", some "el", .d, j, 1, false, "disp"⟩ },
+        heat := true, fuel := none, conv := [1, 1, 1], share := none, ramp := none, last := 0,
+        startCosts := [0, 0, 0], runningCosts := [0, 0, 0], R := 2, D := 0, tar := 0, tao := 0, incOn := true, incStart := true,
+        fuelEff := [], consIfOn := [], startFuel := [] },
+    prof := { sl := [1], su := [2], ql := [1], qu := [2], slh := some [1/2], suh := some [1], qlh := some [1/4], quh := some [1/2] } }
+
+/-- on `110`: start at step 0 (power 1, heat 1/2), last step before the shutdown at step 1 (power 1, heat 1/4) -/
+def xHeat : Vec := fun j => [1, 1, 0, 1/2, 1/4, 0, 1, 1, 0, 1, 0, 0, 0, 0, 1].getD j 0
+
+theorem witnessHeat_feasible : (assembleCHPP witnessHeat).FeasibleRelaxed xHeat := by
+  unfold AssetProblem.FeasibleRelaxed InBounds
+  decide +kernel
+
+example : commitOKP witnessHeat = true := by decide +kernel
+
+/-! ## (D) `convertRamp` (`CHPAsset._convert_ramp`)
+
+`ct = step / ramp_freq`.  Identity when the frequency strings are equal or the two lengths are equal; a grid that is
+`m` times COARSER than `ramp_freq`: plain averages over `m` consecutive given values, the tail padded with the last
+value; a grid that is `m` times FINER: piecewise linear through the points "end of the `j`-th given step ↦ `j`-th
+value", constant before the first point. -/
+
+theorem natCast_ne_zero {k : Nat} (h : 0 < k) : (k : Rat) ≠ 0 := by
+  intro e; rw [Rat.natCast_eq_zero_iff] at e; omega
+
+theorem cast_mul_div (m rs : Nat) (hrs : 0 < rs) : ((m * rs : Nat) : Rat) / (rs : Rat) = (m : Rat) := by
+  rw [Rat.natCast_mul, Rat.mul_div_cancel (natCast_ne_zero hrs)]
+
+theorem ceil_natCast (k : Nat) : ((k : Nat) : Rat).ceil = (k : Int) := Rat.ceil_intCast (k : Int)
+theorem floor_natCast (k : Nat) : ((k : Nat) : Rat).floor = (k : Int) := Rat.floor_intCast (k : Int)
+
+theorem ceil_toNat_natCast (k : Nat) : ((k : Nat) : Rat).ceil.toNat = k := by rw [ceil_natCast]; simp
+theorem floor_toNat_natCast (k : Nat) : ((k : Nat) : Rat).floor.toNat = k := by rw [floor_natCast]; simp
+
+/-- `⌈n / m⌉` for naturals -/
+theorem ceil_div_nat (n m : Nat) (hm : 0 < m) : ((n : Rat) / (m : Rat)).ceil.toNat = (n + m - 1) / m := by
+  have hmq : (0 : Rat) < (m : Rat) := Rat.natCast_pos.mpr hm
+  have key : ((n : Rat) / (m : Rat)).ceil = (((n + m - 1) / m : Nat) : Int) := by
+    apply Int.le_antisymm
+    · rw [Rat.ceil_le_iff, Rat.intCast_natCast]
+      apply Rat.not_lt.mp
+      rw [Rat.lt_div_iff hmq, ← Rat.natCast_mul, Rat.natCast_lt_natCast]
+      have := Nat.lt_div_mul_add (a := n + m - 1) hm
+      have := Nat.div_mul_le_self (n + m - 1) m
+      have : n + m - 1 < (n + m - 1) / m * m + m := Nat.lt_div_mul_add hm
+      omega
+    · apply Int.le_of_sub_one_lt
+      rw [Rat.lt_ceil_iff]
+      rcases Nat.eq_zero_or_pos ((n + m - 1) / m) with h0 | hpos
+      · rw [h0]
+        have : (0 : Rat) ≤ (n : Rat) / (m : Rat) := by
+          rw [Rat.div_def]; exact Rat.mul_nonneg Rat.natCast_nonneg (Rat.le_of_lt (Rat.inv_pos.mpr hmq))
+        have h1 : (((0 : Nat) : Int) - 1 : Int) = -1 := by omega
+        rw [h1]
+        have : ((-1 : Int) : Rat) < 0 := by decide +kernel
+        grind
+      · obtain ⟨k, hk⟩ : ∃ k, (n + m - 1) / m = k + 1 := ⟨(n + m - 1) / m - 1, by omega⟩
+        rw [hk]
+        have h1 : (((k + 1 : Nat) : Int) - 1 : Int) = (k : Int) := by omega
+        rw [h1, Rat.intCast_natCast, Rat.lt_div_iff hmq, ← Rat.natCast_mul, Rat.natCast_lt_natCast]
+        have h2 := Nat.div_mul_le_self (n + m - 1) m
+        rw [hk] at h2
+        have : (k + 1) * m = k * m + m := by rw [Nat.add_mul]; omega
+        omega
+  rw [key]; exact Int.toNat_natCast _
+
+theorem convertRamp_coarse_int (ramp : List Rat) (m rs : Nat) (hm : 0 < m) (hrs : 0 < rs) :
+    convertRamp ramp (m * rs) rs false =
+      (List.range ((ramp.length + m - 1) / m)).map fun i =>
+        (((ramp ++ List.replicate m (ramp.getLastD 0)).drop (i * m)).take m).sum / (m : Rat) := by
+  have hmq : (0 : Rat) < (m : Rat) := Rat.natCast_pos.mpr hm
+  have hrq : (0 : Rat) < (rs : Rat) := Rat.natCast_pos.mpr hrs
+  have h1 : ¬ (m : Rat) < 1 := by
+    rw [Rat.not_lt]
+    have : ((1 : Nat) : Rat) ≤ (m : Rat) := Rat.natCast_le_natCast.mpr hm
+    simpa using this
+  have hN : ((ramp.length : Rat) * (rs : Rat) / ((m * rs : Nat) : Rat)) = (ramp.length : Rat) / (m : Rat) := by
+    rw [Rat.natCast_mul, Rat.div_def, Rat.div_def, Rat.inv_mul_rev, ← Rat.mul_assoc, Rat.mul_assoc (ramp.length : Rat),
+      Rat.mul_inv_cancel _ (natCast_ne_zero hrs), Rat.mul_one]
+  unfold convertRamp
+  simp only [Bool.false_eq_true, if_false, cast_mul_div m rs hrs, h1, hN, ceil_div_nat _ _ hm, ceil_toNat_natCast]
+  apply List.map_congr_left
+  intro i _
+  have e1 : (i : Rat) * (m : Rat) = ((i * m : Nat) : Rat) := (Rat.natCast_mul i m).symm
+  have e2 : ((i + 1 : Nat) : Rat) * (m : Rat) = (((i + 1) * m : Nat) : Rat) := (Rat.natCast_mul (i + 1) m).symm
+  rw [e1, e2]
+  simp only [ceil_toNat_natCast, floor_toNat_natCast]
+  have e3 : (i + 1) * m - i * m = m := by rw [Nat.add_mul]; omega
+  have e4 : i * m < (i + 1) * m := by rw [Nat.add_mul]; omega
+  have e5 : (((i + 1) * m : Nat) : Rat) - ((i * m : Nat) : Rat) = (m : Rat) := by
+    rw [Nat.add_mul, Rat.natCast_add]; simp; grind
+  rw [if_pos e4, e3, e5, if_neg (Rat.lt_irrefl), if_neg (Rat.lt_irrefl), Rat.div_mul_cancel (natCast_ne_zero hm)]
+  grind
+
+theorem sum_blocks (l : List Rat) (m N : Nat) :
+    ((List.range N).map fun i => ((l.drop (i * m)).take m).sum).sum = (l.take (N * m)).sum := by
+  induction N with
+  | zero => simp
+  | succ N ih =>
+    rw [List.range_succ, List.map_append, List.sum_append, ih, Nat.add_mul, Nat.one_mul, List.take_add, List.sum_append]
+    simp; grind
+
+theorem sum_map_div_mul (js : List Nat) (f : Nat → Rat) (c : Rat) (hc : c ≠ 0) :
+    (js.map fun i => f i / c).sum * c = (js.map f).sum := by
+  induction js with
+  | nil => simp
+  | cons j js ih =>
+    simp only [List.map_cons, List.sum_cons, Rat.add_mul, ih, Rat.div_mul_cancel hc]
+
+theorem sum_replicate (k : Nat) (v : Rat) : (List.replicate k v).sum = (k : Rat) * v := by
+  induction k with
+  | zero => simp
+  | succ k ih => rw [List.replicate_succ, List.sum_cons, ih, Rat.natCast_add]; simp; grind
+
+theorem ceilDiv_bounds (n m : Nat) (hm : 0 < m) : n ≤ (n + m - 1) / m * m ∧ (n + m - 1) / m * m ≤ n + m - 1 := by
+  have h1 : n + m - 1 < (n + m - 1) / m * m + m := Nat.lt_div_mul_add hm
+  have h2 := Nat.div_mul_le_self (n + m - 1) m
+  omega
+
+/-- total volume: the converted profile carries the volume of the given one PLUS the padding of the last coarse step
+    (the last given value held for the missing fine steps) -/
+theorem convertRamp_coarse_int_sum (ramp : List Rat) (m rs : Nat) (hm : 0 < m) (hrs : 0 < rs) :
+    (convertRamp ramp (m * rs) rs false).sum * (m : Rat) =
+      ramp.sum + (((ramp.length + m - 1) / m * m - ramp.length : Nat) : Rat) * ramp.getLastD 0 := by
+  rw [convertRamp_coarse_int ramp m rs hm hrs,
+    sum_map_div_mul _ (fun i => (((ramp ++ List.replicate m (ramp.getLastD 0)).drop (i * m)).take m).sum) _
+      (natCast_ne_zero hm), sum_blocks]
+  obtain ⟨h1, h2⟩ := ceilDiv_bounds ramp.length m hm
+  rw [List.take_append, List.take_of_length_le h1, List.take_replicate, List.sum_append, sum_replicate,
+    Nat.min_eq_left (by omega)]
+
+theorem convertRamp_coarse_int_sum_dvd (ramp : List Rat) (m rs k : Nat) (hm : 0 < m) (hrs : 0 < rs)
+    (hk : ramp.length = k * m) : (convertRamp ramp (m * rs) rs false).sum * (m : Rat) = ramp.sum := by
+  rw [convertRamp_coarse_int_sum ramp m rs hm hrs]
+  obtain ⟨h1, h2⟩ := ceilDiv_bounds ramp.length m hm
+  have : (ramp.length + m - 1) / m * m - ramp.length = 0 := by
+    rw [hk] at h1 h2 ⊢
+    have : (k * m + m - 1) / m < k + 1 := by
+      apply Nat.lt_of_mul_lt_mul_right (a := m)
+      rw [Nat.add_mul]; omega
+    have : (k * m + m - 1) / m ≤ k := by omega
+    have := Nat.mul_le_mul_right m this
+    omega
+  rw [this]; simp; grind
+
+/-- equal lengths of `ramp_freq` and the grid step (whatever the frequency STRINGS are): identity -/
+theorem convertRamp_equal_seconds (ramp : List Rat) (rs : Nat) (hrs : 0 < rs) : convertRamp ramp rs rs false = ramp := by
+  have := convertRamp_coarse_int ramp 1 rs (by omega) hrs
+  rw [Nat.one_mul] at this
+  rw [this]
+  apply List.ext_getElem
+  · simp
+  · intro i h1 h2
+    have hi : i < ramp.length := h2
+    simp only [List.getElem_map, List.getElem_range, Nat.mul_one]
+    rw [List.drop_eq_getElem_cons (by simp; omega)]
+    simp [List.getElem_append_left hi]
+    rw [Rat.div_def]; grind
+
+/-! ### the grid is coarser than `ramp_freq`, any ratio -/
+
+theorem ceil_nonneg {a : Rat} (h : 0 ≤ a) : 0 ≤ a.ceil := by
+  apply Int.not_lt.mp
+  intro hc
+  have : a.ceil ≤ -1 := by omega
+  rw [Rat.ceil_le_iff] at this
+  have : ((-1 : Int) : Rat) < 0 := by decide +kernel
+  grind
+
+theorem floor_nonneg {a : Rat} (h : 0 ≤ a) : 0 ≤ a.floor := by
+  rw [Rat.le_floor_iff]; simpa using h
+
+theorem cast_toNat_ceil {a : Rat} (h : 0 ≤ a) : ((a.ceil.toNat : Nat) : Rat) = ((a.ceil : Int) : Rat) := by
+  rw [← Rat.intCast_natCast, Int.toNat_of_nonneg (ceil_nonneg h)]
+
+theorem cast_toNat_floor {a : Rat} (h : 0 ≤ a) : ((a.floor.toNat : Nat) : Rat) = ((a.floor : Int) : Rat) := by
+  rw [← Rat.intCast_natCast, Int.toNat_of_nonneg (floor_nonneg h)]
+
+/-- the weights of the coarse branch: the cut shares lie in `[0, 1)`, whole fine steps in between, total `ct` -/
+theorem coarse_weights (a ct : Rat) (ha : 0 ≤ a) (hct : 1 ≤ ct) :
+    0 ≤ ((a.ceil.toNat : Nat) : Rat) - a ∧ ((a.ceil.toNat : Nat) : Rat) - a < 1 ∧
+    0 ≤ (a + ct) - (((a + ct).floor.toNat : Nat) : Rat) ∧ (a + ct) - (((a + ct).floor.toNat : Nat) : Rat) < 1 ∧
+    a.ceil.toNat ≤ (a + ct).floor.toNat ∧
+    (((a.ceil.toNat : Nat) : Rat) - a) + ((((a + ct).floor.toNat - a.ceil.toNat : Nat)) : Rat) +
+      ((a + ct) - (((a + ct).floor.toNat : Nat) : Rat)) = ct := by
+  have hb : 0 ≤ a + ct := by grind
+  have h1 : a ≤ ((a.ceil : Int) : Rat) := Rat.le_ceil
+  have h2 : ((a.ceil : Int) : Rat) < a + 1 := Rat.ceil_lt
+  have h3 : (((a + ct).floor : Int) : Rat) ≤ a + ct := Rat.floor_le _
+  have h4 : (a + ct) - 1 < (((a + ct).floor : Int) : Rat) := Rat.lt_floor
+  have hle : a.ceil ≤ (a + ct).floor := by
+    rw [Rat.le_floor_iff]; grind
+  have hleN : a.ceil.toNat ≤ (a + ct).floor.toNat := by
+    have := ceil_nonneg ha; have := floor_nonneg hb; omega
+  have hsub : (((a + ct).floor.toNat - a.ceil.toNat : Nat) : Rat) =
+      (((a + ct).floor.toNat : Nat) : Rat) - ((a.ceil.toNat : Nat) : Rat) := by
+    have : (a + ct).floor.toNat = a.ceil.toNat + ((a + ct).floor.toNat - a.ceil.toNat) := by omega
+    have := congrArg (fun k : Nat => (k : Rat)) this
+    simp only [Rat.natCast_add] at this
+    grind
+  rw [hsub, cast_toNat_ceil ha, cast_toNat_floor hb]
+  refine ⟨by grind, by grind, by grind, by grind, hleN, by grind⟩
+
+/-- the grid is coarser than `ramp_freq` (any ratio `ct = step / ramp_freq ≥ 1`): entry `i` is the time-weighted mean of
+    the (padded) given values over `[i·ct, (i+1)·ct)` — whole given steps count fully, the two cut ones with their
+    covered share (`coarse_weights`: shares in `[0,1)`, all weights together `ct`) -/
+theorem convertRamp_coarse_general (ramp : List Rat) (s rs : Nat) (hrs : 0 < rs) (hct : rs ≤ s) :
+    convertRamp ramp s rs false =
+      (List.range (((ramp.length : Nat) : Rat) * (rs : Rat) / (s : Rat)).ceil.toNat).map fun i =>
+        ((((ramp ++ List.replicate ((s : Rat) / (rs : Rat)).ceil.toNat (ramp.getLastD 0)).drop
+              (((i : Nat) : Rat) * ((s : Rat) / (rs : Rat))).ceil.toNat).take
+            ((((i + 1 : Nat) : Rat) * ((s : Rat) / (rs : Rat))).floor.toNat -
+              (((i : Nat) : Rat) * ((s : Rat) / (rs : Rat))).ceil.toNat)).sum +
+          ((((((i : Nat) : Rat) * ((s : Rat) / (rs : Rat))).ceil.toNat : Nat) : Rat) - ((i : Nat) : Rat) * ((s : Rat) / (rs : Rat))) *
+            (ramp ++ List.replicate ((s : Rat) / (rs : Rat)).ceil.toNat (ramp.getLastD 0)).getD
+              ((((i : Nat) : Rat) * ((s : Rat) / (rs : Rat))).ceil.toNat - 1) 0 +
+          (((i + 1 : Nat) : Rat) * ((s : Rat) / (rs : Rat)) -
+              ((((((i + 1 : Nat) : Rat) * ((s : Rat) / (rs : Rat))).floor.toNat : Nat)) : Rat)) *
+            (ramp ++ List.replicate ((s : Rat) / (rs : Rat)).ceil.toNat (ramp.getLastD 0)).getD
+              ((((i + 1 : Nat) : Rat) * ((s : Rat) / (rs : Rat))).floor.toNat) 0) /
+        ((s : Rat) / (rs : Rat)) := by
+  have hrq : (0 : Rat) < (rs : Rat) := Rat.natCast_pos.mpr hrs
+  have hct1 : (1 : Rat) ≤ (s : Rat) / (rs : Rat) := by
+    apply Rat.not_lt.mp
+    rw [Rat.div_lt_iff hrq, Rat.one_mul, Rat.natCast_lt_natCast]
+    omega
+  have h1 : ¬ (s : Rat) / (rs : Rat) < 1 := Rat.not_lt.mpr hct1
+  unfold convertRamp
+  simp only [Bool.false_eq_true, if_false, h1]
+  apply List.map_congr_left
+  intro i _
+  generalize (s : Rat) / (rs : Rat) = ct at hct1 h1 ⊢
+  generalize ramp ++ List.replicate ct.ceil.toNat (ramp.getLastD 0) = P
+  have ha : (0 : Rat) ≤ ((i : Nat) : Rat) * ct := Rat.mul_nonneg Rat.natCast_nonneg (by grind)
+  have hb : ((i + 1 : Nat) : Rat) * ct = ((i : Nat) : Rat) * ct + ct := by rw [Rat.natCast_add]; simp; grind
+  rw [hb]
+  generalize ((i : Nat) : Rat) * ct = a at ha ⊢
+  obtain ⟨w1, _, w3, _, w5, _⟩ := coarse_weights a ct ha hct1
+  have hba : a + ct - a = ct := by grind
+  rw [hba]
+  congr 1
+  congr 1
+  · congr 1
+    · by_cases hlt : a.ceil.toNat < (a + ct).floor.toNat
+      · rw [if_pos hlt, Rat.div_mul_cancel (natCast_ne_zero (by omega))]
+      · rw [if_neg hlt]
+        have : (a + ct).floor.toNat - a.ceil.toNat = 0 := by omega
+        rw [this]; simp
+    · by_cases hlt : a < ((a.ceil.toNat : Nat) : Rat)
+      · rw [if_pos hlt]
+      · rw [if_neg hlt]
+        have : ((a.ceil.toNat : Nat) : Rat) - a = 0 := by grind
+        rw [this, Rat.zero_mul]
+  · by_cases hlt : (((a + ct).floor.toNat : Nat) : Rat) < a + ct
+    · rw [if_pos hlt]
+    · rw [if_neg hlt]
+      have : a + ct - (((a + ct).floor.toNat : Nat) : Rat) = 0 := by grind
+      rw [this, Rat.zero_mul]
+
+/-! ### the grid is finer than `ramp_freq`: `np.interp` -/
+
+theorem interp_go_between (x : Rat) : ∀ (xs fs : List Rat) (xa fa : Rat) (j : Nat),
+    xs.length = fs.length → j < xs.length → (∀ i, i < j → xs.getD i 0 ≤ x) → x < xs.getD j 0 →
+    interp.go x xa fa xs fs =
+      (fa :: fs).getD j 0 + (x - (xa :: xs).getD j 0) *
+        ((fs.getD j 0 - (fa :: fs).getD j 0) / (xs.getD j 0 - (xa :: xs).getD j 0)) := by
+  intro xs
+  induction xs with
+  | nil => intro fs xa fa j _ hj; simp at hj
+  | cons xb xr ih =>
+    intro fs xa fa j hlen hj hle hlt
+    cases fs with
+    | nil => simp at hlen
+    | cons fb fr =>
+      cases j with
+      | zero =>
+        have : x < xb := by simpa using hlt
+        simp [interp.go, this]
+      | succ j =>
+        have h0 : xb ≤ x := by simpa using hle 0 (by omega)
+        have : ¬ x < xb := Rat.not_lt.mpr h0
+        simp only [interp.go, this, if_false]
+        rw [ih fr xb fb j (by simpa using hlen) (by simpa using hj)
+          (fun i hi => by simpa using hle (i + 1) (by omega)) (by simpa using hlt)]
+        simp
+
+theorem interp_go_ge (x : Rat) : ∀ (xs fs : List Rat) (xa fa : Rat),
+    xs.length = fs.length → (∀ i, i < xs.length → xs.getD i 0 ≤ x) →
+    interp.go x xa fa xs fs = (fa :: fs).getD xs.length 0 := by
+  intro xs
+  induction xs with
+  | nil => intro fs xa fa _ _; cases fs <;> simp [interp.go]
+  | cons xb xr ih =>
+    intro fs xa fa hlen hle
+    cases fs with
+    | nil => simp at hlen
+    | cons fb fr =>
+      have h0 : xb ≤ x := by simpa using hle 0 (by simp)
+      have : ¬ x < xb := Rat.not_lt.mpr h0
+      simp only [interp.go, this, if_false]
+      rw [ih fr xb fb (by simpa using hlen) (fun i hi => by simpa using hle (i + 1) (by simp; omega))]
+      simp
+
+/-- `np.interp` at or before the first node: the first value (constant continuation) -/
+theorem interp_le_first (xp fp : List Rat) (x : Rat) (hlen : xp.length = fp.length) (h : x ≤ xp.getD 0 0)
+    (hne : 0 < xp.length) : interp xp fp x = fp.getD 0 0 := by
+  cases xp with
+  | nil => simp at hne
+  | cons x0 xs =>
+    cases fp with
+    | nil => simp at hlen
+    | cons f0 fs =>
+      have : x ≤ x0 := by simpa using h
+      simp [interp, this]
+
+/-- `np.interp` between the nodes `j` and `j + 1`: the straight line through them -/
+theorem interp_between (xp fp : List Rat) (x : Rat) (j : Nat) (hlen : xp.length = fp.length) (hj : j + 1 < xp.length)
+    (hle : ∀ i, i ≤ j → xp.getD i 0 ≤ x) (hlt : x < xp.getD (j + 1) 0) (hfirst : x ≤ xp.getD 0 0 → j = 0) :
+    interp xp fp x = fp.getD j 0 + (x - xp.getD j 0) * ((fp.getD (j + 1) 0 - fp.getD j 0) / (xp.getD (j + 1) 0 - xp.getD j 0)) := by
+  cases xp with
+  | nil => simp at hj
+  | cons x0 xs =>
+    cases fp with
+    | nil => simp at hlen
+    | cons f0 fs =>
+      by_cases hx : x ≤ x0
+      · have hj0 := hfirst (by simpa using hx)
+        subst hj0
+        have h0 : x0 ≤ x := by simpa using hle 0 (Nat.le_refl 0)
+        have : x = x0 := Rat.le_antisymm hx h0
+        subst this
+        simp [interp]
+        grind
+      · simp only [interp, hx, if_false]
+        rw [interp_go_between x xs fs x0 f0 j (by simpa using hlen) (by simpa using hj)
+          (fun i hi => by simpa using hle (i + 1) (by omega)) (by simpa using hlt)]
+        simp
+
+/-- `np.interp` at or after the last node: the last value -/
+theorem interp_ge_last (xp fp : List Rat) (x : Rat) (hlen : xp.length = fp.length) (hne : 0 < xp.length)
+    (hle : ∀ i, i < xp.length → xp.getD i 0 ≤ x) (hfirst : x ≤ xp.getD 0 0 → xp.length = 1) :
+    interp xp fp x = fp.getD (xp.length - 1) 0 := by
+  cases xp with
+  | nil => simp at hne
+  | cons x0 xs =>
+    cases fp with
+    | nil => simp at hlen
+    | cons f0 fs =>
+      by_cases hx : x ≤ x0
+      · have h1 := hfirst (by simpa using hx)
+        have : xs = [] := by simpa using h1
+        subst this
+        simp [interp, hx]
+      · simp only [interp, hx, if_false]
+        rw [interp_go_ge x xs fs x0 f0 (by simpa using hlen) (fun i hi => by simpa using hle (i + 1) (by simp; omega))]
+        simp
+
+
+/-- the nodes of the interpolation when `ramp_freq` is `m` grid steps: `(j+1)·m` -/
+def fineNodes (n m : Nat) : List Rat := (List.range n).map fun j => (((j + 1) * m : Nat) : Rat)
+
+theorem convertRamp_fine_int (ramp : List Rat) (m ss : Nat) (hm : 2 ≤ m) (hss : 0 < ss) :
+    convertRamp ramp ss (m * ss) false =
+      (List.range (ramp.length * m)).map fun k => interp (fineNodes ramp.length m) ramp ((k + 1 : Nat) : Rat) := by
+  have hsq : (0 : Rat) < (ss : Rat) := Rat.natCast_pos.mpr hss
+  have hmq : (0 : Rat) < (m : Rat) := Rat.natCast_pos.mpr (by omega)
+  have hct : (ss : Rat) / ((m * ss : Nat) : Rat) < 1 := by
+    rw [Rat.div_lt_iff (Rat.natCast_pos.mpr (Nat.mul_pos (by omega) hss)), Rat.one_mul, Rat.natCast_lt_natCast]
+    have : 2 * ss ≤ m * ss := Nat.mul_le_mul_right ss hm
+    omega
+  have hnode : ∀ j : Nat, ((j + 1 : Nat) : Rat) * ((m * ss : Nat) : Rat) / (ss : Rat) = (((j + 1) * m : Nat) : Rat) := by
+    intro j
+    rw [Rat.natCast_mul m ss, ← Rat.mul_assoc, Rat.mul_div_cancel (natCast_ne_zero hss), ← Rat.natCast_mul]
+  have hN : ((ramp.length : Nat) : Rat) * ((m * ss : Nat) : Rat) / (ss : Rat) = ((ramp.length * m : Nat) : Rat) := by
+    rw [Rat.natCast_mul m ss, ← Rat.mul_assoc, Rat.mul_div_cancel (natCast_ne_zero hss), ← Rat.natCast_mul]
+  unfold convertRamp fineNodes
+  simp only [Bool.false_eq_true, if_false, hct, if_true, hnode, hN, ceil_toNat_natCast]
+
+theorem fineNodes_length (n m : Nat) : (fineNodes n m).length = n := by simp [fineNodes]
+
+theorem fineNodes_getD (n m j : Nat) (hj : j < n) : (fineNodes n m).getD j 0 = (((j + 1) * m : Nat) : Rat) := by
+  simp [fineNodes, List.getD_eq_getElem?_getD, hj]
+
+theorem getD_map_range (N : Nat) (f : Nat → Rat) (k : Nat) (hk : k < N) : ((List.range N).map f).getD k 0 = f k := by
+  simp [List.getD_eq_getElem?_getD, hk]
+
+/-- the first `m` fine steps hold the FIRST given value (no rise from zero) -/
+theorem fine_entry_first (ramp : List Rat) (m ss : Nat) (hm : 2 ≤ m) (hss : 0 < ss) (k : Nat) (hk : k < m)
+    (hn : 0 < ramp.length) : (convertRamp ramp ss (m * ss) false).getD k 0 = ramp.getD 0 0 := by
+  have hkN : k < ramp.length * m := by
+    have : 1 * m ≤ ramp.length * m := Nat.mul_le_mul_right m hn
+    omega
+  rw [convertRamp_fine_int ramp m ss hm hss, getD_map_range _ _ k hkN]
+  apply interp_le_first _ _ _ (fineNodes_length _ _) _ (by rw [fineNodes_length]; exact hn)
+  rw [fineNodes_getD _ _ 0 hn, Rat.natCast_le_natCast]
+  omega
+
+/-- `d` fine steps after the node `(j+1)·m` (the end of the `j`-th given step): on the straight line from the `j`-th to
+    the `(j+1)`-th given value; for `d = 0` the given value itself -/
+theorem fine_entry_linear (ramp : List Rat) (m ss : Nat) (hm : 2 ≤ m) (hss : 0 < ss) (j d : Nat)
+    (hj : j + 1 < ramp.length) (hd : d < m) :
+    (convertRamp ramp ss (m * ss) false).getD ((j + 1) * m + d - 1) 0 =
+      ramp.getD j 0 + (d : Rat) * ((ramp.getD (j + 1) 0 - ramp.getD j 0) / (m : Rat)) := by
+  have e1 : (j + 1) * m = j * m + m := by rw [Nat.add_mul]; omega
+  have e2 : (j + 1 + 1) * m = j * m + m + m := by rw [Nat.add_mul, e1]; omega
+  have hkN : (j + 1) * m + d - 1 < ramp.length * m := by
+    have : (j + 1 + 1) * m ≤ ramp.length * m := Nat.mul_le_mul_right m hj
+    omega
+  have hk1 : (j + 1) * m + d - 1 + 1 = (j + 1) * m + d := by omega
+  rw [convertRamp_fine_int ramp m ss hm hss, getD_map_range _ _ _ hkN, hk1,
+    interp_between (fineNodes ramp.length m) ramp _ j (fineNodes_length _ _) (by rw [fineNodes_length]; exact hj)]
+  · rw [fineNodes_getD _ _ j (by omega), fineNodes_getD _ _ (j + 1) hj]
+    have h1 : (((j + 1) * m + d : Nat) : Rat) - (((j + 1) * m : Nat) : Rat) = (d : Rat) := by
+      rw [Rat.natCast_add]; grind
+    have h2 : (((j + 1 + 1) * m : Nat) : Rat) - (((j + 1) * m : Nat) : Rat) = (m : Rat) := by
+      rw [e2, e1, Rat.natCast_add (j * m + m) m]; grind
+    rw [h1, h2]
+  · intro i hi
+    rw [fineNodes_getD _ _ i (by omega), Rat.natCast_le_natCast]
+    have : (i + 1) * m ≤ (j + 1) * m := Nat.mul_le_mul_right m (by omega)
+    omega
+  · rw [fineNodes_getD _ _ (j + 1) hj, Rat.natCast_lt_natCast]
+    omega
+  · intro h
+    rw [fineNodes_getD _ _ 0 (by omega), Rat.natCast_le_natCast] at h
+    have h0 : (0 + 1) * m = m := by omega
+    have : j * m = 0 := by omega
+    rcases Nat.mul_eq_zero.mp this with h' | h' <;> omega
+
+/-- the last fine step carries the last given value -/
+theorem fine_entry_last (ramp : List Rat) (m ss : Nat) (hm : 2 ≤ m) (hss : 0 < ss) (hn : 0 < ramp.length) :
+    (convertRamp ramp ss (m * ss) false).getD (ramp.length * m - 1) 0 = ramp.getD (ramp.length - 1) 0 := by
+  have hpos : 0 < ramp.length * m := Nat.mul_pos hn (by omega)
+  have hk1 : ramp.length * m - 1 + 1 = ramp.length * m := by omega
+  rw [convertRamp_fine_int ramp m ss hm hss, getD_map_range _ _ _ (by omega), hk1]
+  have := interp_ge_last (fineNodes ramp.length m) ramp ((ramp.length * m : Nat) : Rat) (fineNodes_length _ _)
+    (by rw [fineNodes_length]; exact hn)
+  rw [fineNodes_length] at this
+  apply this
+  · intro i hi
+    rw [fineNodes_getD _ _ i hi, Rat.natCast_le_natCast]
+    exact Nat.mul_le_mul_right m (by omega)
+  · intro h
+    rw [fineNodes_getD _ _ 0 hn, Rat.natCast_le_natCast] at h
+    rcases Nat.lt_or_ge 1 ramp.length with h1 | h1
+    · have : 2 * m ≤ ramp.length * m := Nat.mul_le_mul_right m h1
+      omega
+    · omega
+
 end EAO.CHPProfCommit
